@@ -179,8 +179,9 @@ BundleBase<_Derived>::transform_impl(
   Transformation ret = Transformation::Zero();
   // cxx11 "fold expression"
   auto l =
-  {((ret.template element<
-    Element<_Idx>::Dim+1, Element<_Idx>::Dim+1
+  {((ret.template block<
+    Element<_Idx>::Transformation::RowsAtCompileTime,
+    Element<_Idx>::Transformation::RowsAtCompileTime
   >(
     std::get<_Idx>(internal::traits<_Derived>::TraIdx),
     std::get<_Idx>(internal::traits<_Derived>::TraIdx)
